@@ -3,7 +3,7 @@
    sort_rules = Python's stable sorted) — proofs in PriorityProofs.v.
    Subject priority: Subject.v (get_subject_hierarchy_map, sort_policies_by_subject_hierarchy) — proofs in
    SubjectProofs.v.  The decision over the stored order is C01's model of the rule loop. *)
-From Coq Require Import List NArith Bool Arith Permutation Sorted.
+From Coq Require Import List NArith ZArith Bool Arith Permutation Sorted.
 From PyCasbin Require Import Base Effect Enforce Policy PolicyProofs EnforceProofs PriorityProofs PriorityRefine Subject SubjectProofs.
 Import ListNotations.
 
@@ -214,4 +214,27 @@ Print Assumptions C07_incremental_load_is_stable.
 
 Example C07_example_incremental :
   load_increment 0 [[1;13]; [5;10]]%N [[2;11]; [1;14]; [10;15]]%N = [[1;13]; [1;14]; [2;11]; [5;10]; [10;15]]%N.
+Proof. vm_compute. reflexivity. Qed.
+
+(* ---------------------------------------------------------------------------------------------------------------
+   The single add, stated of the SOURCE: casbin/model/policy.py is re-translated on every run (coq/gen/PolicyGen.v) and
+   PolicyTie.v proves by symbolic execution of the swap loop - for every stored list whose rules carry a decimal priority
+   in column pi, every new rule whose priority field is decimal (or missing: the rule then stays appended) - that
+   add_policy on a model with a priority column leaves exactly insert_by_priority's list, about which C07_add_position /
+   C07_add_is_stable above speak. *)
+From PyCasbin Require PolLang PolicyTie.
+From PyCasbinGen Require PolicyGen.
+
+Theorem C07_source_add_inserts_by_priority : forall tk (pi : nat) l r,
+  forallb (PolicyTie.digit_field pi) l = true ->
+  match nth_error r pi with Some k => PolLang.digit_atom k = true | None => True end ->
+  PolLang.run PolicyGen.policy_gen (PolicyTie.mkE true (Z.of_nat pi) tk) PolicyTie.FUEL PolicyGen.m_add_policy l [PolLang.PL r] =
+  if has_policy l r then (Ok (PolLang.PB false), l) else (Ok (PolLang.PB true), insert_by_priority pi l r).
+Proof. exact PolicyTie.src_add_inserts_by_priority. Qed.
+Print Assumptions C07_source_add_inserts_by_priority.
+
+Example C07_source_add_example :
+  PolLang.run PolicyGen.policy_gen (PolicyTie.mkE true 0%Z (Some 0%nat)) PolicyTie.FUEL PolicyGen.m_add_policy
+    [[1; 1001; 1002]; [5; 1001; 1002]; [5; 1004; 1005]; [9; 1003; 1002]]%N [PolLang.PL [5; 1007; 1007]%N] =
+  (Ok (PolLang.PB true), [[1; 1001; 1002]; [5; 1001; 1002]; [5; 1004; 1005]; [5; 1007; 1007]; [9; 1003; 1002]]%N).
 Proof. vm_compute. reflexivity. Qed.
